@@ -143,6 +143,7 @@ func (w *world) opts(v *fsx.View) dkv.DBOptions {
 	return dkv.DBOptions{
 		FileSystem:                  v,
 		MemTableSize:                uint64(w.in.CfgInt("MemCap", 45)),
+		MaxWALSize:                  uint64(w.in.CfgInt("WalCap", 0)),
 		TargetFileSize:              uint64(w.in.CfgInt("TargetFileSize", 0)),
 		L0TableNumCompactionTrigger: w.in.CfgInt("L0Trigger", 2),
 	}
